@@ -2,7 +2,7 @@ SPECIFICATION Spec
 CONSTANTS Vals    <- ValsThorough
           SetVals <- SetValsThorough
           NumEdge <- NumEdgeThorough
-          ArityB = 2
+          ArityB = 3
           WideB = TRUE
           WideC = TRUE
 INVARIANTS ThAbsentKey ThDuals ThNumeric ThConnectives ThTotal ThTable
